@@ -322,6 +322,17 @@ func (c *EvalCtx) findGlobal(pkgPath, name string) *ssa.Global {
 // localVar finds the current value of a source-level local variable by name (optionally name#k for the k-th declaration).
 func (c *EvalCtx) localVar(name string) (TV, bool) {
 	x := c.x
+	if name == "rangeindex" && c.loopHeader != nil && len(c.loopHeader.Instrs) > 0 {
+		// the hidden index of the slice-range loop whose invariant is being evaluated
+		if ld, ok := c.loopHeader.Instrs[0].(*ssa.UnOp); ok {
+			if al, ok := ld.X.(*ssa.Alloc); ok && al.Comment == "rangeindex" {
+				st := c.state()
+				if cell := st.allocOf[al]; cell != nil {
+					return TV{V: st.cells[cell], T: types.Typ[types.Int], S: SInt}, true
+				}
+			}
+		}
+	}
 	want := 1
 	base := name
 	if i := strings.Index(name, "#"); i >= 0 {
@@ -758,6 +769,11 @@ func (c *EvalCtx) call(v *ECall) TV {
 		// lock held? evaluated statically against the lockset
 		key := c.lockKey(v.Args[0])
 		return tvTerm(BoolLit(c.state().held[key]))
+	case "received":
+		// received(ch): a value was received from channel ch on this path (ghost, path-sensitive)
+		need(1)
+		ch := c.termOf(c.eval(v.Args[0]))
+		return tvTerm(BoolLit(c.state().recvd[ch.String()]))
 	case "seen":
 		// seen(k): the visited-set of the map range loop at the current loop header
 		it := c.rangeIter()
